@@ -10,6 +10,7 @@ import NixModel.Generated.MutatorOrder
 import NixModel.Props.C12Links
 import NixModel.Props.C12Data
 import NixModel.Props.C12Copies
+import NixModel.Props.C12Frames
 
 /-!
 # C12 — a refused operation leaves the file exactly as it was
